@@ -17,17 +17,11 @@
     (e.g. the target of a successful [try_unwrap] is live); [Life.mfold_eq] shows that on clean
     runs of well-formed programs the marking interpreter IS the real one.
 
-    OPEN (not proved): the analogous statements for the weak side record ("every [ESFree o] is
-    preceded by an [ESAlloc o], at most one of each per object").  Missing: an invariant
-    [cnt ESAlloc o = (h_side (o_hdr x) || side-was-ever-allocated)] / [cnt ESFree o = sd_freed]
-    through every activation (a third instance of [Life.mrun_ind]; [LifeInv.Quiet] treats the two
-    events as irrelevant).  What IS proved about side records: SafeFinalProps.side_freed_once /
-    side_alive_while_weak_freed (Props/C09.v), and [EBad DoubleFree] is never logged (below),
-    which [Machine.sfree] logs when it frees a side record twice. *)
+The weak side records have the same event-level lifecycle ([C03_side_events], LifeSd*.v). *)
 From Coq Require Import NArith Bool List Lia.
 From stdpp Require Import base list option.
 From RecordUpdate Require Import RecordSet.
-From RC Require Import Hdr Machine RunInd Inv InvP SafeMain LifeInv LifeCyc LifeFin LifeDa LifeDa5.
+From RC Require Import Hdr Machine RunInd Inv InvP SafeMain LifeInv LifeCyc LifeFin LifeDa LifeDa5 LifeSd LifeSd5.
 Import ListNotations RecordSetNotations.
 Local Open Scope N_scope.
 
@@ -92,6 +86,27 @@ Theorem C03_free_once_after_alloc_same_layout :
   (forall (o : id) (x : obj), get m o = Some x -> o_box x = BFreed -> o_vst x <> VLive).
 Proof. exact LifeFin.prog_free_facts. Qed.
 Print Assumptions C03_free_once_after_alloc_same_layout.
+
+(** the weak side record: at most one [ESAlloc o] and one [ESFree o] per object; every [ESFree o]
+    is preceded by the [ESAlloc o] and by no other [ESFree o]; [ESAlloc o] logged iff the object
+    has a side record (iff the header bit is set), [ESFree o] iff the record is marked freed *)
+Print isSA. Print isSF. Print evs_id.
+Theorem C03_side_events :
+  forall (K : conf) (P : prog),
+  (k_clean K = true -> k_weak K = true) -> wf_prog P = true ->
+  forall (fuel : nat) (cmds : list cmd),
+  let m := fold_left (fun m c => exec_top K P fuel c m) cmds (init K) in
+  forallb (fun e => match e with EBad Fuel _ | EBad Abort _ => false | _ => true end) (log m) = true ->
+  (forall o : id, (cntE (isSA o) (log m) <= 1)%nat /\ (cntE (isSF o) (log m) <= 1)%nat) /\
+  (forall (l1 : list event) (o : id) (l2 : list event), log m = l1 ++ ESFree o :: l2 -> In (ESAlloc o) l2 /\ cntE (isSF o) l2 = 0%nat) /\
+  (forall (l1 : list event) (o : id) (l2 : list event), log m = l1 ++ ESAlloc o :: l2 -> cntE (isSA o) l2 = 0%nat) /\
+  (forall (o : id) (x : obj), get m o = Some x ->
+     ((0 < cntE (isSA o) (log m))%nat <-> o_side x <> None) /\
+     ((0 < cntE (isSF o) (log m))%nat <-> exists s : side, o_side x = Some s /\ sd_freed s = true) /\
+     (h_side (o_hdr x) = true <-> o_side x <> None)) /\
+  (forall (e : event) (o : id), In e (log m) -> evs_id e = Some o -> is_Some (get m o)).
+Proof. exact LifeSd5.prog_side_events. Qed.
+Print Assumptions C03_side_events.
 
 (** between two top-level states nothing goes backwards: a dropped value stays dropped, a freed box
     stays freed, a never-allocated box stays so, ... *)
